@@ -132,6 +132,20 @@ Theorem C05_proposals_apply_every_command_once :
 Proof. exact PipelineFacts.propose_stream_flat. Qed.
 Print Assumptions C05_proposals_apply_every_command_once.
 
+(* ... and the other way to catch up: snapshot recovery.  The leader streams its table as of its applied index n (one PUT
+   per pair in key order, then a DUMMY declaring n); the follower loads the stream into a fresh shard in batches of any
+   size (C07's model of readIntoTable).  What it then holds - content and recorded leader index - is exactly what the step
+   [ARecover] of the model above gives it.  Commands act on plain maps as in C01. *)
+From Verif Require Model.Restore Model.Cmd Model.Spec.
+Theorem C05_recovery_is_the_restore : forall (maxInMem : N) (size_of : Bytes.bytes * Bytes.bytes -> N) (s : sys Spec.umap Cmd.command),
+  let n := length (s_log Spec.umap Cmd.command s) in
+  let captured := state_at Spec.umap Cmd.command PipelineFacts.app_cmd [] (s_log Spec.umap Cmd.command s) n in
+  let f' := s_fol Spec.umap Cmd.command (step Spec.umap Cmd.command PipelineFacts.app_cmd [] s (ARecover Cmd.command)) in
+  Restore.restored (Restore.read_into_table maxInMem (Restore.table_stream size_of captured (Some (N.of_nat n))))
+  = (f_store Spec.umap f', N.of_nat (f_lidx Spec.umap f')).
+Proof. exact PipelineFacts.recovery_is_restore. Qed.
+Print Assumptions C05_recovery_is_the_restore.
+
 (* non-vacuity: a log compacted up to 2 holding entries 3..6 (entry 5 is not a command), applied = 5; a follower at
    leader index 3 polls through the plain reader, which hands out one entry per answer: two messages, entries 4 and 5
    applied in order (the non-command as a dummy), leader index 5; entry 6 is not shipped *)
